@@ -212,8 +212,23 @@ func (o *deployOracle) OnWrite(s *Sim, w *Write) {
 	// "size is not being changed": every ReplicaSet was sized for the current replicas
 	var rss []*appsv1.ReplicaSet
 	resizing := false
+	// ReplicaSets as the deciding sync knew them: its lister cache, overlaid with what it wrote itself in this sync
+	// (another party - the native controller after a hand-over - may have resized them meanwhile; that is not this sync's doing)
+	own := map[ObjKey]bool{}
+	if t := s.cur; t != nil {
+		for i := len(s.Store.Log) - 1; i >= 0 && s.Store.Log[i].RecID == t.RecID && s.Store.Log[i].Actor == w.Actor; i-- {
+			own[s.Store.Log[i].Key] = true
+		}
+	}
 	for _, k := range s.Store.Keys(gkRS) {
 		rs := s.Store.Peek(k).(*appsv1.ReplicaSet)
+		if !own[k] && k != w.Key {
+			c, _ := s.Proc.cache.objs[k].(*appsv1.ReplicaSet)
+			if c == nil {
+				continue // not known to the process yet
+			}
+			rs = c
+		}
 		if r := metav1.GetControllerOf(rs); r != nil && r.UID == d.UID && rs.DeletionTimestamp == nil {
 			rss = append(rss, rs)
 			if *rs.Spec.Replicas > 0 || rs.Name == nrs.Name {
@@ -290,6 +305,9 @@ func (o *deployOracle) OnWrite(s *Sim, w *Write) {
 			}
 		}
 		if removedAvail > 0 && avail-removedAvail < n-unavail {
+			if st.Paused {
+				fam += "/paused" // the "sync only" path of a paused Deployment (scale()), not the rolling path
+			}
 			s.Violate("C17", "D4-availability", "D4/"+fam, w.Seq, "old ReplicaSet %s scaled %d -> %d removes %d available pods: %d would stay available, replicas %d - maxUnavailable %d = %d required", w.Key.Name, before, after, removedAvail, avail-removedAvail, n, unavail, n-unavail)
 		}
 	}
